@@ -143,12 +143,19 @@ class HistogramBase(abc.ABC):
         kwargs = new_kwargs
 
         # Frequencies + appropriate dtypes
+        requested_dtype = dtype
         if frequencies is None:
             dtype = dtype or np.int64
             self._frequencies = np.zeros(self.shape, dtype=dtype)
         else:
             if dtype is not None:
+                given = np.asarray(frequencies)
                 frequencies = np.asarray(frequencies, dtype=dtype)
+                if frequencies.dtype.kind in "iu" and given.dtype.kind == "f":
+                    if np.any(given != frequencies):
+                        raise ValueError(
+                            "Integer histogram requested but non-integer frequencies entered."
+                        )
             else:
                 frequencies = np.asarray(frequencies)
                 if frequencies.dtype in self.SUPPORTED_DTYPES:
@@ -169,7 +176,17 @@ class HistogramBase(abc.ABC):
         if errors2 is None:
             self.errors2 = abs(self._frequencies.copy())
         else:
-            self.errors2 = np.asarray(errors2, dtype=self.dtype)
+            given = np.asarray(errors2)
+            if self._dtype.kind in "iu" and given.dtype.kind == "f":
+                if np.any(given != given.astype(self._dtype)):
+                    # Non-integer errors cannot be kept with integer contents
+                    if requested_dtype is not None:
+                        raise ValueError(
+                            "Integer histogram requested but non-integer errors2 entered."
+                        )
+                    self._dtype = np.promote_types(self._dtype, given.dtype)
+                    self._frequencies = self._frequencies.astype(self._dtype)
+            self.errors2 = given.astype(self._dtype)
 
         self.keep_missed = keep_missed
         # Note: missed are dealt differently in 1D/ND cases
